@@ -18,9 +18,20 @@ RULE = (
     "= max(reg throughput, busiest data-port pressure), not flagged unknown; neither form -> flagged, zero pressure "
     "and latency; every line is checked against its own expectation in the order of the kernel (so a leak from one "
     "instruction into another shows). Non-trivial: a composed instruction whose load/store row is not the default "
-    "row, or a kernel with >=2 composed instructions of different addressing shapes. Distinct = distinct (model, kernel)."
+    "row, or a kernel with >=2 composed instructions of different addressing shapes. Distinct = distinct (model, kernel). "
+    "Second part (checks/c08_real.py), shipped x86 models: every register-only entry of the model written with one "
+    "operand (first or last) replaced by one of 11 memory addressing shapes; the register form is found by R-match "
+    "(C07's reference matcher) in file order with the AT&T suffix fall-back, the load/store rows, defaults, "
+    "multipliers and load latencies are read from the head of the model's YAML file by the check itself, and the same "
+    "five equalities are asserted; instructions with an entry of their own, with a register form lacking "
+    "throughput/latency, or whose register type has no row although other types have typed rows are counted and not "
+    "asserted. Non-trivial there: at least one composed instruction asserted."
 )
 ASSUMPTIONS = [
+    "shipped-model part: the instruction-form list of the model object is taken from OSACA's loader (its fidelity is "
+    "C15's subject); table rows, defaults, multipliers and load latencies are parsed independently from the YAML head",
+    "shipped-model part: a zero displacement against an 'offset: ~' row and identifier displacements are left "
+    "unasserted; AArch64 shipped models are not used (no valid AArch64 instruction reaches composition on them)",
     "tables are either untyped or completely typed (partially typed tables: row choice not pinned by the property)",
     "row patterns are mutually exclusive (concrete shapes, or - wildcard regime - rows wildcarding the whole address "
     "that differ only in register type and AArch64 write-back mode), so 'the row for its addressing mode' is unique",
@@ -303,6 +314,10 @@ _R = {}
 def check_case(case):
     from checks.c01 import _rm
 
+    if case.get("kind") == "real":
+        from checks import c08_real
+        return c08_real.check_case(case)
+
     if "r" not in _R:
         _R["r"] = Runner()
     r = _R["r"]
@@ -382,10 +397,16 @@ def check_case(case):
 
 def plan(tier, seed):
     n = {"quick": 300, "thorough": 8000}[tier]
-    return [{"isa": "x86" if i % 2 == 0 else "aarch64", "seed": seed * 1000 + 800 + i, "n": n} for i in range(16)]
+    from checks import c08_real
+
+    return [{"isa": "x86" if i % 2 == 0 else "aarch64", "seed": seed * 1000 + 800 + i, "n": n}
+            for i in range(16)] + c08_real.plan(tier, seed)
 
 
 def run_shard(spec):
+    if spec.get("kind") == "real":
+        from checks import c08_real
+        return c08_real.run_shard(spec)
     stats = Stats()
     failures = hyp_search(ID, cases(spec["isa"]), check_case, stats, seed=spec["seed"], max_examples=spec["n"])
     return {"stats": stats.to_dict(), "failures": failures}
@@ -396,7 +417,8 @@ def replay(case):
 
 
 LEVEL_TEXT = ("Randomised differential testing of the composition path against a model-independent recomputation "
-              "(R-compose) on generated models of both ISAs, line by line in kernel order.")
+              "(R-compose) on generated models of both ISAs, line by line in kernel order, and of the memory forms of "
+              "every register-only entry of the shipped x86 models against tables read from the YAML files.")
 LEVEL_NOTE = ("Trusted: R-compose in checks/c08.py; table regimes restricted to untyped or completely typed rows with "
               "mutually exclusive addressing-shape patterns.")
 TECHNIQUE = "property-based differential testing against a reference composition of register-form and load/store data"
